@@ -139,27 +139,29 @@ def toStringRadix (x : FV) (a : Arg) : Option Res :=
 /-- digits of n left-padded with zeros to at least `w` characters -/
 def padLeft (w : Nat) (s : Str) : Str := List.replicate (w - s.length) 48 ++ s
 
+/-- §15.7.4.5 toFixed, steps 3–9 for an in-range f -/
+def fixedStr (x : FV) (f : Nat) : Str :=
+  match x with
+  | .nan => sNaN                                                        -- 4
+  | .inf s => if s then sNegInfinity else sInfinity                     -- 7 (x ≥ 10^21)
+  | .fin s m e =>
+    let (num, den) := ratOf m e
+    if num ≥ 10 ^ 21 * den then toStringNum x                           -- 7
+    else
+      let sign : Str := if s ∧ m ≠ 0 then [45] else []                  -- 6 (x < 0)
+      let n := divRHU (num * 10 ^ f) den                                -- 8a
+      let ms := decimalStr n                                            -- 8b
+      if f = 0 then sign ++ ms
+      else
+        let ms := padLeft (f + 1) ms                                    -- 8c i
+        let k := ms.length
+        sign ++ ms.take (k - f) ++ 46 :: ms.drop (k - f)                -- 8c ii–iii
+
 /-- §15.7.4.5 toFixed -/
 def toFixed (x : FV) (a : Arg) : Res :=
   let f := argInt a                                                       -- 1
   if ltI f 0 ∨ gtI f 20 then .rangeError                                  -- 2
-  else
-    let f := (intOf f).toNat
-    match x with
-    | .nan => .str sNaN                                                   -- 4
-    | .inf s => .str (if s then sNegInfinity else sInfinity)              -- 7 (x ≥ 10^21)
-    | .fin s m e =>
-      let (num, den) := ratOf m e
-      if num ≥ 10 ^ 21 * den then .str (toStringNum x)                    -- 7
-      else
-        let sign : Str := if s ∧ m ≠ 0 then [45] else []                  -- 6 (x < 0)
-        let n := divRHU (num * 10 ^ f) den                                -- 8a
-        let ms := decimalStr n                                            -- 8b
-        if f = 0 then .str (sign ++ ms)
-        else
-          let ms := padLeft (f + 1) ms                                    -- 8c i
-          let k := ms.length
-          .str (sign ++ ms.take (k - f) ++ 46 :: ms.drop (k - f))         -- 8c ii–iii
+  else .str (fixedStr x (intOf f).toNat)
 
 /-- n significant digits, ties → larger (§15.7.4.6 step 9a, §15.7.4.7 step 10a): (digits, e) -/
 def sigRoundUp (m : Nat) (e : Int) (n : Nat) : List Nat × Int :=
@@ -172,6 +174,20 @@ def sigRoundUp (m : Nat) (e : Int) (n : Nat) : List Nat × Int :=
 def expSuffix (e : Int) : Str :=
   101 :: (if e < 0 then 45 else 43) :: decimalStr e.natAbs
 
+/-- §15.7.4.6 toExponential, steps 4–6, 8–13 for a finite value (f meaningful when a is defined) -/
+def expStr (s : Bool) (m : Nat) (e : Int) (defined : Bool) (f : Nat) : Str :=
+  let sign : Str := if s ∧ m ≠ 0 then [45] else []
+  if m = 0 then                                                        -- 8
+    let f := if defined then f else 0
+    let ms : Str := List.replicate (f + 1) 48
+    sign ++ (if f = 0 then ms else ms.take 1 ++ 46 :: ms.drop 1) ++ expSuffix 0
+  else
+    let (ds, ex) : List Nat × Int :=
+      if defined then sigRoundUp m e (f + 1)                           -- 9a
+      else let d := shortestDigits m e; (d.ds, d.dp - 1)               -- 9b
+    let ms := ds.map digitCh
+    sign ++ (if ds.length ≤ 1 then ms else ms.take 1 ++ 46 :: ms.drop 1) ++ expSuffix ex   -- 10–13
+
 /-- §15.7.4.6 toExponential -/
 def toExponential (x : FV) (a : Arg) : Res :=
   let f := argInt a                                                       -- 2
@@ -180,20 +196,22 @@ def toExponential (x : FV) (a : Arg) : Res :=
   | .inf s => .str (if s then sNegInfinity else sInfinity)                -- 5, 6
   | .fin s m e =>
     if a.isDefined ∧ (ltI f 0 ∨ gtI f 20) then .rangeError                -- 7
-    else
-      let sign : Str := if s ∧ m ≠ 0 then [45] else []
-      if m = 0 then                                                        -- 8
-        let f := if a.isDefined then (intOf f).toNat else 0
-        let ms : Str := List.replicate (f + 1) 48
-        .str (sign ++ (if f = 0 then ms else ms.take 1 ++ 46 :: ms.drop 1) ++ expSuffix 0)
-      else
-        let (ds, ex) : List Nat × Int :=
-          if a.isDefined then sigRoundUp m e ((intOf f).toNat + 1)         -- 9a
-          else let d := shortestDigits m e; (d.ds, d.dp - 1)               -- 9b
-        let ms := ds.map digitCh
-        .str (sign ++ (if ds.length ≤ 1 then ms else ms.take 1 ++ 46 :: ms.drop 1) ++ expSuffix ex)   -- 10–13
+    else .str (expStr s m e a.isDefined (intOf f).toNat)
 
-/-- §15.7.4.7 toPrecision (with the ES2015 erratum `p ≠ 1` in step 10.c.ii) -/
+/-- §15.7.4.7 toPrecision steps 9–14 for a finite value and in-range p
+    (with the ES2015 erratum `p ≠ 1` in step 10.c.ii) -/
+def precStr (s : Bool) (m : Nat) (e : Int) (p : Nat) : Str :=
+  let sign : Str := if s ∧ m ≠ 0 then [45] else []
+  let (ds, ex) : List Nat × Int :=
+    if m = 0 then (List.replicate p 0, 0) else sigRoundUp m e p           -- 9, 10a
+  let ms := ds.map digitCh
+  if ex < -6 ∨ ex ≥ p then                                                -- 10c
+    sign ++ (if p = 1 then ms else ms.take 1 ++ 46 :: ms.drop 1) ++ expSuffix ex
+  else if ex = (p : Int) - 1 then sign ++ ms                              -- 11
+  else if ex ≥ 0 then sign ++ ms.take (ex.toNat + 1) ++ 46 :: ms.drop (ex.toNat + 1)   -- 12
+  else sign ++ 48 :: 46 :: (List.replicate (-(ex + 1)).toNat 48 ++ ms)                 -- 13
+
+/-- §15.7.4.7 toPrecision -/
 def toPrecision (x : FV) (a : Arg) : Res :=
   match a with
   | .undef => .str (toStringNum x)                                        -- 2
@@ -204,17 +222,7 @@ def toPrecision (x : FV) (a : Arg) : Res :=
     | .inf s => .str (if s then sNegInfinity else sInfinity)              -- 7
     | .fin s m e =>
       if ltI pI 1 ∨ gtI pI 21 then .rangeError                            -- 8
-      else
-        let p := (intOf pI).toNat
-        let sign : Str := if s ∧ m ≠ 0 then [45] else []
-        let (ds, ex) : List Nat × Int :=
-          if m = 0 then (List.replicate p 0, 0) else sigRoundUp m e p     -- 9, 10a
-        let ms := ds.map digitCh
-        if ex < -6 ∨ ex ≥ p then                                          -- 10c
-          .str (sign ++ (if p = 1 then ms else ms.take 1 ++ 46 :: ms.drop 1) ++ expSuffix ex)
-        else if ex = (p : Int) - 1 then .str (sign ++ ms)                 -- 11
-        else if ex ≥ 0 then .str (sign ++ ms.take (ex.toNat + 1) ++ 46 :: ms.drop (ex.toNat + 1))   -- 12
-        else .str (sign ++ 48 :: 46 :: (List.replicate (-(ex + 1)).toNat 48 ++ ms))                 -- 13
+      else .str (precStr s m e (intOf pI).toNat)
 
 /-! ### §9.3.1 ToNumber applied to the String type -/
 
